@@ -217,7 +217,8 @@ static void log_level(const DM &A, const DM &P, const DM &Rm, const DM &Ac) {
         auto Ag = assemble(A), Pg = assemble(P), Rg = assemble(Rm), Cg = assemble(Ac);
         auto Tg = backend::transpose(*Pg);
         auto Gg = backend::product(*Rg, *backend::product(*Ag, *Pg));
-        if (g_rec.cname == "aggregation") backend::scale(*Gg, 1.0 / (g_rec.over == 3 ? 1.5 : (double)g_rec.over));
+        // over_interp is a float parameter and the code scales by the float 1 / over_interp
+        if (g_rec.cname == "aggregation") backend::scale(*Gg, 1 / (g_rec.over == 3 ? 1.5f : (float)g_rec.over));
         o.str("k", "levelO").i("n", Ag->nrows).i("nc", Pg->ncols)
          .i("errR", millidecades(max_rel_diff(*Rg, *Tg))).i("errAc", millidecades(max_rel_diff(*Cg, *Gg)));
         // every row of P that belongs to an aggregate must interpolate constants: row sums (SA: filtered rows sum to 1 too)
